@@ -79,7 +79,11 @@ def execute(behaviours, d, timeout=1500, workers=6):
     if dropped * 20 > int(m.group(1)):
         raise core.Inconclusive('%d of %s behaviours could not be executed without timing interference'
                                 % (dropped, m.group(1)))
-    return trace, dropped
+    execute.dropped = dropped
+    return trace
+
+
+execute.dropped = 0
 
 
 def judge(rep, behaviours, trace):
@@ -128,7 +132,8 @@ def stale_apply_line(lines, tid, upto):
         ev, prev = lines[j], lines[j - 1]
         if ev['a'] == 'ReportApply':
             r = prev['st']['pend'][ev['args']['i'] - 1]
-            if r['l'] != prev['st']['leader'] or r['e'] != prev['st']['lepoch'] or not prev['st']['exists']:
+            stale = r['l'] != prev['st']['leader'] or r['e'] != prev['st']['lepoch'] or not prev['st']['exists']
+            if stale and ev['obs']['err'] != 'stale':
                 return j
     return None
 
@@ -187,7 +192,7 @@ def run(rep, tier, seed, replay):
     if replay:
         behaviours = replay['replay']['behaviours']
         with core.scratch('c07') as d:
-            trace, _ = execute(behaviours, d)
+            trace = execute(behaviours, d)
             judge(rep, behaviours, trace)
         rep.cov['rule'] = 'replay of a saved stimulus'
         rep.cov['samples'] = behaviours[:1]
@@ -212,8 +217,12 @@ def run(rep, tier, seed, replay):
         directed.append((isr, cx))
     # 2b. reports that overlap inside ReportLeader (check and effect as separate steps): design check
     #     with the known finding exempted, TLC's witness of the finding as a directed stimulus
-    r3 = core.tlc_check('MC_Failover.tla', 'MC_Failover_race.cfg', timeout=1500)
+    r3 = core.tlc_check('MC_Failover.tla', 'MC_Failover_race.cfg', timeout=1500, coverage=not quick)
     rep.add_design('MC_Failover_race', r3)
+    # an action counts as never taken only if no configuration takes it (the sequential configurations
+    # have no overlapping reports by construction, the race configuration has them)
+    never = set(res.get('zero_cov', [])) & set(r3.get('zero_cov', []))
+    rep.cov['coverage_zero_actions'] = sorted(never)
     r4 = core.tlc_check('MC_Failover.tla', 'MC_Failover_race_taint.cfg', timeout=600, workers=1)
     rep.cov['design_checks'].append({'config': 'MC_Failover_race_taint.cfg (reachability of the known finding)',
                                      'violated': r4['violated'], 'distinct_states': r4['distinct'],
@@ -253,7 +262,8 @@ def run(rep, tier, seed, replay):
         behaviours.append(to_stimulus(isr, steps, len(behaviours) + 1))
     # 5. execute on the real controller, 6. TLC judges
     with core.scratch('c07') as d:
-        trace, dropped = execute(behaviours, d, workers=min(10 if quick else 12, core.NCPU))
+        trace = execute(behaviours, d, workers=min(10 if quick else 12, core.NCPU))
+        dropped = execute.dropped
         tr = judge(rep, behaviours, trace)
     rep.cov['traces_validated_against_impl'] = len(behaviours) - dropped
     rep.cov['behaviours_dropped_for_timing'] = dropped
